@@ -14,6 +14,15 @@ CHECKS = {
  "C04": dict(cat="exploration", tech="post-condition (deep-copied pre-state) on greedy_from_json checked by symbolic execution of the returned id sequence",
    text="A post-condition on every greedy_from_json call (real pipeline on generated blocks + direct calls on hand-built specifications): success implies the id sequence realizes the pre-call specification (no underflow, DUP/SWAP 1..16, stores once, dependencies, exact operands, final stack).",
    note="trusts vlib/sfs_eval.realizes; hand-built specs follow the front-end JSON conventions", ref="3/C04"),
+ "C14": dict(cat="exploration", tech="post-conditions on the real splitters and on rebuild_optimized_asm_block, checked against an independent join/stack-effect computation",
+   text="For generated blocks under the three splitting policies: the two splitters agree, join(subblocks) reproduces the optimizable sequence, spec keys name reported sub-blocks, src_ws/tgt_ws heights are consistent with our stack-effect table, rebuild with nothing optimized is the identity and replacing one sub-block by a marker changes only that segment.",
+   note="trusts vlib/evm.ARITY; the splitter's convention of dropping the ASSIGNIMMUTABLE operand in its lists is accepted", ref="3/C14"),
+ "C15": dict(cat="exploration", tech="round-trip oracles over shipped and synthesized documents, generated blocks and constant spellings",
+   text="to_json(parse_asm(D)) = D modulo PUSH0 spelling on all shipped and synthesized documents (also the --asm-json form), parse_plain(to_plain(B)) = B on generated blocks in both text renderings, and every defined spelling of a constant parses to that constant; push0 on and off.",
+   note="{} and {asm:null} identified; pseudo-push operands compared as the number they denote", ref="3/C15"),
+ "C18": dict(cat="exploration", tech="bounded-exhaustive enumeration of formula trees through the real constructors with a reference evaluator and an independent SMT-LIB reader",
+   text="All formula trees of depth <=1, all binary depth-2 trees (thorough; 1/12 systematic sample in quick) and sampled depth 3-4 trees are built through add_* and compared under all 36 valuations with the reference value of the unsimplified tree, both as objects and through translate_formula + our SMT-LIB reader; == of constructed formulas implies equal truth tables on all ordered pairs of depth-1 formulas.",
+   note="trusts vlib/smt.py evaluator; Bool/Int disjoint", ref="3/C18"),
 }
 NOT_YET = {}
 def main():
